@@ -30,6 +30,7 @@ def checks():
         "C07": fam_det.check_c07,
         "C09": fam_codec.check_c09,
         "C11": fam_interop.check_c11,
+        "C12": fam_interop.check_c12,
         "C20": fam_cli.check_c20,
     }
     for mod, names in OPTIONAL:
